@@ -306,7 +306,8 @@ func runRT(t *testing.T, sc *rtSc) (res verifsim.Result) {
 				}
 				if ev.Proto && ev.GoneMs > 0 {
 					// the peer turns into a client (identify push) while it is being probed
-					time.Sleep(time.Duration(ev.GoneMs) * time.Millisecond)
+					// (half a millisecond off the whole milliseconds of the latencies: the push never coincides with the probe's answer)
+					time.Sleep(time.Duration(ev.GoneMs)*time.Millisecond - 500*time.Microsecond)
 					h.Peerstore().SetProtocols(p, "/other/1.0.0")
 					goneAt[p] = len(sim.Log())
 					advertises[p] = false
